@@ -16,7 +16,8 @@ Record layout := {
   y_race_fd : string; y_race_task : string;   (* kind 3: this descriptor / thread is gone when looked at *)
   y_del_fd : string;                 (* kind 0: this descriptor's target, the exe and the cwd end in " (deleted)" *)
   y_maps_del : list string;          (* kind 0: mapped files of smaps whose path ends in " (deleted)" *)
-  y_devs : list string }.            (* tty nodes found by get_terminal_map() *)
+  y_devs : list string;              (* tty nodes found by get_terminal_map() *)
+  y_gone_dev : string }.             (* kind 3: this node is unlinked between the scan's glob and its stat *)
 
 Definition dat (e z : bool) (ns : list string) (c : lcls) : data :=
   {| d_empty := e; d_zombie := z; d_names := ns; d_link := c |}.
@@ -54,6 +55,7 @@ Definition base (y : layout) (kind : nat) (gf : string -> bool) (k : akind) (x :
   | Ext =>
       match f with
       | FExeDel | FCwdDel | FTargetDelE | FMapPathE => Err ENOENT      (* nothing at "<path> (deleted)" *)
+      | FDevE => if Nat.eqb kind 3 && String.eqb cur (y_gone_dev y) then Err ENOENT else Ok data0   (* pty node freed *)
       | _ => Ok data0
       end
   | _ =>
@@ -72,8 +74,9 @@ Definition mk_world (y : layout) (kind : nat) (v : option nat) (half : bool) (de
   {| w_base := base y kind; w_self := y_self y; w_vanish := v; w_half := half;
      w_deny := fun i => existsb (Nat.eqb i) denied;
      w_ovanish := fun p => assoc None (map (fun e => (fst e, Some (snd e))) ov) p;
-     w_param := fun n => match n with 0%nat => guess | 1%nat => longname | _ => false end;
-     w_pcur := fun n cur => match n with 1%nat => longname && String.eqb cur (y_self y) | _ => false end;
+     w_param := fun n => match n with 0%nat => guess | 1%nat => longname | 4%nat => Nat.eqb kind 3 | _ => false end;
+     w_pcur := fun n cur => match n with 1%nat => longname && String.eqb cur (y_self y)
+                                    | 4%nat => Nat.eqb kind 3 && String.eqb cur (y_self y) | _ => false end;
      w_parent := y_parent y;
      w_kids := assoc [] (y_kids y) |}.
 
@@ -126,7 +129,7 @@ Definition jv_result (r : result) : jv :=
 Definition with_params (w : world) (low reu : bool) : world :=
   {| w_base := w_base w; w_self := w_self w; w_vanish := w_vanish w; w_half := w_half w; w_deny := w_deny w;
      w_ovanish := w_ovanish w;
-     w_param := fun n => match n with 2%nat => low | 3%nat => reu | _ => w_param w n end;
+     w_param := fun n => match n with 2%nat => low | 3%nat => reu | _ => w_param w n end;   (* 4 (W_TTYHIT): see mk_world *)
      w_pcur := w_pcur w; w_parent := w_parent w; w_kids := w_kids w |}.
 
 (* a history of calls on ONE fresh Process object: [outcomes; whole access log; gone at the end?] *)
